@@ -71,7 +71,7 @@ PROPS = {
         not_decided=[
             'end-to-end write-then-read through async I/O: write_block (incl. the de-duplication callback) and the section layout of PMTilesWriter::write_to_writer are under contract; the versatiles header and meta writes, completeness of write_blocks (every non-empty block is listed) and of the PMTiles entry list (every streamed tile has an entry) are not; the composition writer -> file -> reader is not stated as one theorem',
             'MBTiles (SQL), tar and directory (file names), getters.rs dispatch',
-            'the outer size search of as_directory (float loop); BlockIndex: as_blob and from_blob are each under contract (units block_index, block_index_pyramid) but the composition from_blob(as_blob(i)) = i is not stated as a lemma',
+            'the outer size search of as_directory (float loop)',
         ],
     ),
     'C10': dict(
